@@ -243,8 +243,8 @@ func (x *xl) stField(e ast.Expr) (xStField, bool) {
 // loopStmt: `for { body }` as the first statement of a unit with fuel: the unit calls itself (with the fuel left)
 // for the next iteration; break leaves to the statements after the loop.
 func (x *xl) loopStmt(s *ast.ForStmt, rest func() string, d int) string {
-	if !x.unit.Fuel || len(x.body) == 0 || x.body[0] != ast.Stmt(s) || x.inLoop {
-		x.fail(s, "`for { }` is in the subset only as the first statement of a unit with fuel")
+	if !x.unit.Fuel || x.unit.Group == "" || len(x.body) == 0 || x.body[0] != ast.Stmt(s) || x.inLoop {
+		x.fail(s, "`for { }` is in the subset only as the first statement of a unit with fuel that belongs to a group")
 	}
 	ast.Inspect(s.Body, func(n ast.Node) bool {
 		if b, ok := n.(*ast.BranchStmt); ok && (b.Tok != token.BREAK || b.Label != nil) {
